@@ -82,4 +82,8 @@ Definition icstep' (s : icstate) (o : icop) : icstate := match icstep s o with S
 Definition icruns (s : icstate) (os : list icop) : icstate := fold_left icstep' os s.
 (* a server just started on disk d *)
 Definition ic_init (d : gmap N V) : icstate := {| c_disk := d; c_cache := ∅; c_wbuf := ∅; c_owner := ∅ |}.
+(* ---- for the correspondence run (harness `icmodel`) ---- *)
+Definition ic_make (l : list (N * V)) : icstate := ic_init (list_to_map l).
+Definition ic_disk_at (s : icstate) (i : N) : option V := c_disk s !! i.
+Definition ic_cache_at (s : icstate) (i : N) : option V := c_cache s !! i.
 End IC.
